@@ -156,6 +156,93 @@ def _intern(s):
     return s
 
 
+_FMT_RE = re.compile(r"%([sdr%])")
+
+
+def _percent_format(self, other):
+    """`fmt % args` without realising symbolic arguments.
+
+    Supported exactly: formats made of literal text, %%, %s and %d without
+    flags/width/mapping keys (concatenation of str(arg)).  `%r` of a *symbolic
+    string* is over-approximated by a fresh unconstrained symbolic string:
+    python-debian uses %r only inside exception/warning/verbose messages, and an
+    over-approximation can only add behaviours (spurious counterexamples are
+    filtered by the plain replay), never hide one.  Everything else falls back
+    to CrossHair's stock behaviour (realise the arguments)."""
+    if not isinstance(self, str):
+        raise TypeError
+    with NoTracing():
+        fmt = realize(self)
+        simple = "%" not in _FMT_RE.sub("", fmt)
+        pieces = _FMT_RE.split(fmt) if simple else None
+    if not simple:
+        return fmt.__mod__(core.deep_realize(other))
+    nspec = sum(1 for i in range(1, len(pieces), 2) if pieces[i] != "%")
+    if isinstance(other, tuple):
+        args = list(other)
+    else:
+        args = [other]
+    if len(args) != nspec:
+        return fmt.__mod__(core.deep_realize(other))
+    out = ""
+    k = 0
+    for i, piece in enumerate(pieces):
+        if i % 2 == 0:
+            out = out + piece
+            continue
+        if piece == "%":
+            out = out + "%"
+            continue
+        a = args[k]
+        k += 1
+        if piece == "s":
+            out = out + str(a)
+        elif piece == "d":
+            if not isinstance(a, int):
+                return fmt.__mod__(core.deep_realize(other))
+            out = out + str(a)
+        else:
+            with NoTracing():
+                sym = isinstance(a, AnySymbolicStr)
+                if sym:
+                    from crosshair.core import proxy_for_type
+                    from crosshair.statespace import context_statespace
+                    fresh = proxy_for_type(str, "pctr" + context_statespace().uniq())
+            if sym:
+                out = out + fresh
+            else:
+                out = out + repr(a)
+    return out
+
+
+def _install_format_value_repr():
+    """f-string / optimised %-format `!r` of a symbolic str: fresh symbolic string
+    (same over-approximation as in `_percent_format`) instead of realisation."""
+    from crosshair import opcode_intercept as oi
+    from crosshair.tracers import COMPOSITE_TRACER, frame_stack_read, frame_stack_write
+    stock = oi.FormatValueInterceptor.trace_op
+
+    def trace_op(self, frame, codeobj, codenum):
+        flags = oi.frame_op_arg(frame)
+        if codenum == oi.FORMAT_VALUE and (flags & 0x03) == 0x02:
+            value_idx = -2 if (flags & 0x04) else -1
+            obj = frame_stack_read(frame, value_idx)
+            if isinstance(obj, AnySymbolicStr) and not (flags & 0x04):
+                from crosshair.core import proxy_for_type
+                from crosshair.statespace import context_statespace
+                fresh = proxy_for_type(str, "fmtr" + context_statespace().uniq())
+                frame_stack_write(frame, value_idx, "")
+
+                def post_op():
+                    frame_stack_write(frame, -1, fresh)
+
+                COMPOSITE_TRACER.set_postop_callback(post_op, frame)
+                return
+        return stock(self, frame, codeobj, codenum)
+
+    oi.FormatValueInterceptor.trace_op = trace_op
+
+
 def apply():
     global _APPLIED
     if _APPLIED:
@@ -166,6 +253,8 @@ def apply():
     relib.unicode_ignorecase_mask = _unicode_ignorecase_mask
     core._PATCH_REGISTRATIONS[re.Pattern.findall] = _findall
     core._PATCH_REGISTRATIONS[re.Pattern.search] = _search
+    core._PATCH_REGISTRATIONS[str.__mod__] = _percent_format
+    _install_format_value_repr()
     try:
         register_patch(sys.intern, _intern)
     except Exception:
@@ -179,4 +268,5 @@ REPAIRS = [
     "Match.groupdict returns strings/default (stock returns spans, drops unmatched groups)",
     "IGNORECASE literal masks built from re.escape(chr(cp))",
     "sys.intern modelled as identity",
+    "str %-formatting with only %s/%d/%r/%% directives is symbolic (stock: realises all arguments); %r of a symbolic str is over-approximated by a fresh symbolic string",
 ]
